@@ -143,7 +143,11 @@ func buildPool(m *vs.Stream, freeze bool) (*pool, error) {
 	for attempt := 0; ; attempt++ {
 		p.geoms = p.geoms[:0]
 		for i := 0; i < ng; i++ {
-			cfg := gen.Cfg{MaxPts: 12, MaxParts: 3, Depth: 1 + m.Intn(2, "pool/depth"), CTypes: zm, Empties: m.Intn(4, "pool/empties") == 3, SpareCap: true}
+			maxPts := 12
+			if m.Intn(8, "pool/longer") == 7 {
+				maxPts = 40 // sequences of 64+ floats (size-threshold paths)
+			}
+			cfg := gen.Cfg{MaxPts: maxPts, MaxParts: 3, Depth: 1 + m.Intn(2, "pool/depth"), CTypes: zm, Empties: m.Intn(4, "pool/empties") == 3, SpareCap: true}
 			if general {
 				cfg.Jitter = 0.3
 			}
@@ -301,6 +305,8 @@ func buildPool(m *vs.Stream, freeze bool) (*pool, error) {
 		addBuf("geojson", []byte(gen.GrammarGeoJSON(m, 2)))
 		addBuf("wkt", []byte(gen.GrammarWKT(m, 2)))
 	}
+	addBuf("feature", []byte(gen.GrammarFeature(m)))
+	addBuf("featurecollection", []byte(`{"type":"FeatureCollection","features":[`+gen.GrammarFeature(m)+`,`+gen.GrammarFeature(m)+`]}`))
 	if err := p.reg.freeze(); err != nil {
 		return nil, err
 	}
